@@ -250,7 +250,10 @@ def chem_case(ctx, qp, rng, gi, molname, basis, active):
         e0 = float(np.linalg.eigvalsh((Hsec + Hsec.conj().T) / 2)[0])
         tol = TOL_DHF if method == "dhf" else (TOL_PYSCF if method == "pyscf" else 1e-7)  # openfermion truncates coefficients at 1e-8
         ctx.ev("ham.fci")
-        if abs(e0 - ref["e_fci"]) > tol:
+        # CASCI energies are not invariant under the residual orbital error of the back-end's own SCF (PySCF default conv_tol 1e-9 inside
+        # PennyLane vs 1e-12 here): first-order sensitivity, observed up to 1.1e-8 -> 1e-6; full-space FCI is orbital invariant
+        tol_e = tol if active is None else max(tol, 1e-6)
+        if abs(e0 - ref["e_fci"]) > tol_e:
             viol("ham.fci", f"{method}: ground-state energy in the (N={ne}, Sz=0) sector {e0:.10f} Ha differs from PySCF {'FCI' if active is None else 'CASCI'} "
                             f"{ref['e_fci']:.10f} Ha by {e0 - ref['e_fci']:+.3e} ({molname}/{basis}, active={active}, charge {charge})", f"fci:{method}", e0, ref["e_fci"])
         # ---- Hartree-Fock state
